@@ -4,9 +4,9 @@
    two-fault cases (two slots of one base); Randoms random-byte cases.                                          *)
 EXTENDS FaultGrammar, Json, IOUtils
 
-CONSTANTS Stride, Pairs, Randoms, NBombs
+CONSTANTS Stride, Pairs, Randoms, NBombs, RefStride
 BaseRecs == ndJsonDeserialize(IOEnv.BASES)
-B(i) == [name |-> BaseRecs[i].name, nslots |-> BaseRecs[i].nslots, classes |-> BaseRecs[i].classes, ntails |-> BaseRecs[i].ntails, nbodies |-> BaseRecs[i].nbodies]
+B(i) == [name |-> BaseRecs[i].name, nslots |-> BaseRecs[i].nslots, classes |-> BaseRecs[i].classes, ntails |-> BaseRecs[i].ntails, nbodies |-> BaseRecs[i].nbodies, nrefs |-> BaseRecs[i].nrefs]
 Emit(b, fs) == PrintT(<<"REPLAY", ToJson([base |-> b.name, faults |-> fs])>>)
 SlotF(i, v) == [k |-> "slot", slot |-> i, val |-> v]
 SlotCases(b, bi) ==
@@ -27,6 +27,8 @@ BodyCases(b) == \A o \in 0..(b.nbodies - 1) : \A j \in 1..Len(BodyVals) : Emit(b
 \* few: all of them in every tier
 XrefCutCases(b) == \A n \in 0..12 : \A pad \in {"none", "blank", "comment"} :
                      LET f == [k |-> "xrefcut", lines |-> n, pad |-> pad] IN WellFormed(b, f) /\ Emit(b, <<f>>)
+RefCases(b, bi) == \A i \in 0..(b.nrefs - 1) : \A t \in 1..Len(RefTargets) :
+                     ((i * 5 + t + bi) % RefStride = 0) => (LET f == [k |-> "ref", site |-> i, to |-> RefTargets[t]] IN WellFormed(b, f) /\ Emit(b, <<f>>))
 RunCases(b) == \A i \in 1..Len(RunPlaces) : \A j \in 1..Len(RunFillers) : \A n \in RunLengths :
                  LET f == [k |-> "run", place |-> RunPlaces[i], filler |-> RunFillers[j], n |-> n] IN WellFormed(b, f) /\ Emit(b, <<f>>)
 RandomCases(b) == \A n \in 1..Randoms : Emit(b, <<[k |-> "random", n |-> n, len |-> (n * 97) % 2048, header |-> n % 2 = 0]>>)
@@ -34,7 +36,7 @@ RandomCases(b) == \A n \in 1..Randoms : Emit(b, <<[k |-> "random", n |-> n, len 
 VARIABLE done
 MCInit == done = FALSE /\ Init
 MCNext == /\ ~done
-          /\ \A bi \in 1..Len(BaseRecs) : LET b == B(bi) IN SlotCases(b, bi) /\ StructCases(b, bi) /\ KeywordCases(b, bi) /\ PairCases(b, bi) /\ TailCases(b) /\ BodyCases(b) /\ XrefCutCases(b)
+          /\ \A bi \in 1..Len(BaseRecs) : LET b == B(bi) IN SlotCases(b, bi) /\ StructCases(b, bi) /\ KeywordCases(b, bi) /\ PairCases(b, bi) /\ TailCases(b) /\ BodyCases(b) /\ XrefCutCases(b) /\ RefCases(b, bi)
           /\ RandomCases(B(1)) /\ RunCases(B(1))
           /\ \A i \in 1..NBombs : Emit(B(1), <<[k |-> "bomb", name |-> BombNames[i]]>>)
           /\ done' = TRUE /\ UNCHANGED <<nfaults, answered>>
